@@ -2,6 +2,7 @@ package props
 
 import (
 	"encoding/base64"
+	"encoding/json"
 	"flag"
 	"fmt"
 	"os"
@@ -22,6 +23,79 @@ import (
 func init() {
 	extraCmds["storeone"] = cmdStoreOne
 	extraCmds["retrieveone"] = cmdRetrieveOne
+	extraCmds["storehist"] = cmdStoreHist
+}
+
+// histStep is one call of an in-process history (one FileSystem instance for the whole history).
+type histStep struct {
+	Op        string `json:"op"` // store | retrieve
+	File      string `json:"file"`
+	NoClobber bool   `json:"noclobber,omitempty"`
+	NilOpts   bool   `json:"nilopts,omitempty"`
+	Second    bool   `json:"second,omitempty"` // use a second FileSystem instance on the same directory
+}
+
+func cmdStoreHist(args []string) int {
+	fs := flag.NewFlagSet("storehist", flag.ExitOnError)
+	dir := fs.String("dir", "", "")
+	script := fs.String("script", "", "")
+	_ = fs.Parse(args)
+	sb, err := os.ReadFile(*script)
+	if err != nil {
+		fmt.Println("HARNESS cannot read script:", err)
+		return 3
+	}
+	var steps []histStep
+	if err := json.Unmarshal(sb, &steps); err != nil {
+		fmt.Println("HARNESS bad script:", err)
+		return 3
+	}
+	be, be2 := storage.NewFileSystem(), storage.NewFileSystem()
+	be.Options.Path, be2.Options.Path = *dir, *dir
+	for i, st := range steps {
+		b, err := os.ReadFile(st.File)
+		if err != nil {
+			fmt.Println("HARNESS cannot read", st.File)
+			return 3
+		}
+		inst := be
+		if st.Second {
+			inst = be2
+		}
+		fmt.Printf("STEP %d BEGIN\n", i)
+		switch st.Op {
+		case "store":
+			doc := &sbom.Document{}
+			if err := proto.Unmarshal(b, doc); err != nil {
+				fmt.Println("HARNESS cannot decode docfile")
+				return 3
+			}
+			var opts *storage.StoreOptions
+			if !st.NilOpts {
+				opts = &storage.StoreOptions{NoClobber: st.NoClobber}
+			}
+			if err := inst.Store(doc, opts); err != nil {
+				fmt.Println("ERR", err)
+			} else {
+				fmt.Println("OK")
+			}
+		case "retrieve":
+			doc, err := inst.Retrieve(string(b), &storage.RetrieveOptions{})
+			switch {
+			case err != nil && doc != nil:
+				fmt.Println("BOTH", err)
+			case err != nil:
+				fmt.Println("ERR", strings.ReplaceAll(err.Error(), "\n", " "))
+			case doc == nil:
+				fmt.Println("NEITHER")
+			default:
+				mb, _ := proto.Marshal(doc)
+				fmt.Println("DOC", base64.StdEncoding.EncodeToString(mb))
+			}
+		}
+	}
+	fmt.Println("HISTORY-END")
+	return 0
 }
 
 func cmdStoreOne(args []string) int {
